@@ -183,6 +183,11 @@ def scripted_histories():
     for n in (3, 255, 256):
         for fresh in (b"n1", b"n2", b"n3", b"n4"):
             H.append([("w", "A", "f", b"base"), ("w", "B", "f", b"base"), ("s",), ("w", "A", "f", b"a1"), ("w", "B", "f", b"b1"), ("s",), ("wc", "A", 0, b"user-edited-conflict-copy"), ("fill", "A", 0, n), ("s",), ("rc", "B", 0, fresh), ("s",), ("s",)])
+    # the earlier conflict-copy is edited DIFFERENTLY on the two sides (so it is itself a divergent edit in the next
+    # run) and the old loser comes back: its name is taken by two contents, neither of which may be overwritten
+    for side in "AB":
+        for fresh in (b"n1", b"n2", b"n3", b"n4"):
+            H.append([("w", "A", "f", b"base"), ("w", "B", "f", b"base"), ("s",), ("w", "A", "f", b"a1"), ("w", "B", "f", b"b1"), ("s",), ("wc", "A", 0, b"copy-edited-on-A"), ("wc", "B", 0, b"copy-edited-on-B"), ("rc", side, 0, fresh), ("s",), ("s",)])
     # the receiving file has a second hard link elsewhere
     H.append([("w", "A", "f", Z), ("w", "B", "f", Z), ("w", "A", "g", Y), ("w", "B", "g", Y), ("s",), ("hl", "B", "f"), ("hl", "A", "g"), ("w", "A", "f", X), ("d", "B", "g"), ("s",), ("s",)])
     # recreate after delete propagated
